@@ -181,28 +181,32 @@ pub struct Conns {
 }
 
 impl Conns {
-    /// Send one frame as node `from` to `port`; returns false if the connection could not be made.
+    /// Send one frame as node `from` to `port`, reconnecting once if the kept connection was closed
+    /// by the peer (a receiver drops the connection after an undecodable frame); returns false if
+    /// the connection could not be made.
     pub async fn send(&mut self, from: u32, port: u16, bytes: Vec<u8>) -> bool {
-        if !self.map.contains_key(&(from, port)) {
-            simnet::set_current_node(from);
-            let s = TcpStream::connect(addr(port)).await;
-            simnet::set_current_node(0);
-            match s {
-                Ok(s) => {
-                    self.map.insert((from, port), Framed::new(s, LengthDelimitedCodec::builder().max_frame_length(64 << 20).new_codec()));
+        for _attempt in 0..2 {
+            if !self.map.contains_key(&(from, port)) {
+                simnet::set_current_node(from);
+                let s = TcpStream::connect(addr(port)).await;
+                simnet::set_current_node(0);
+                match s {
+                    Ok(s) => {
+                        self.map.insert((from, port), Framed::new(s, LengthDelimitedCodec::builder().max_frame_length(64 << 20).new_codec()));
+                    }
+                    Err(_) => return false,
                 }
-                Err(_) => return false,
             }
-        }
-        let framed = self.map.get_mut(&(from, port)).unwrap();
-        simnet::set_current_node(from);
-        let r = framed.send(Bytes::from(bytes)).await;
-        simnet::set_current_node(0);
-        if r.is_err() {
+            let framed = self.map.get_mut(&(from, port)).unwrap();
+            simnet::set_current_node(from);
+            let r = framed.send(Bytes::from(bytes.clone())).await;
+            simnet::set_current_node(0);
+            if r.is_ok() {
+                return true;
+            }
             self.map.remove(&(from, port));
-            return false;
         }
-        true
+        false
     }
 
     pub fn drop_conn(&mut self, from: u32, port: u16) {
